@@ -92,7 +92,7 @@ TChain == /\ l <= Len(Trace) /\ Trace[l].ev = "Chain" /\ l' = l + 1
 TNew == /\ l <= Len(Trace) /\ Trace[l].ev = "New" /\ l' = l + 1
         /\ LET e == Trace[l]
                o == e.obs
-               p == IF e.res = "ok" THEN PreConsume(st, e.man) ELSE [st EXCEPT !.pc = "idle"]
+               p == IF e.res = "ok" THEN PreConsume(st, e.man) ELSE [st EXCEPT !.pc = "idle", !.def = <<>>]   \* no usable manifest: no applier
                b == If(~CanonSame(o), "NoPartialSwitch") \cup If(~ArtsOk(o), ArtClause)
            IN /\ st' = Resync(p, o) /\ prev' = o.canon
               /\ Note(b, Differs(p, o) \/ (e.res = "ok" /\ e.from # p.cur))
